@@ -67,8 +67,15 @@ def data_many(op, paths):
                 cur = ln[3:]
                 continue
             t = ln.split()
-            if cur is not None and len(t) >= 3 and not ln.startswith("bad parse"):
-                res[cur][t[0]] = (int(t[1]), int(t[2])) if op == "sizesmany" else t[2]
+            if cur is None or len(t) < 3 or ln.startswith("bad parse"):
+                continue
+            if op == "sizesmany":
+                # `<name> <size> <align> <export> <thread>`; an assembler label may contain blanks: split from the right
+                r = ln.rsplit(None, 4)
+                if len(r) == 5 and r[1].isdigit() and r[2].isdigit():
+                    res[cur][r[0]] = (int(r[1]), int(r[2]))
+            else:
+                res[cur][t[0]] = t[2]
     return res
 
 
